@@ -106,10 +106,10 @@ def run(chk):
     inputs += [b"", b"\n", b"\"a\nb\" x", b"'\n' y", b"// only comment", b"x//c\ny", b"1.5", b"12b", b"\"open", b"'", b"'a", b"a\r\nb"]
     corp = bytegen.corpus_sources()
     inputs += [b for _f, b in corp]
-    inputs += bytegen.token_soup(rng, 6000 if chk.thorough else 900)
+    inputs += bytegen.token_soup(rng, 40000 if chk.thorough else 900)
     for _f, b in corp[: (40 if chk.thorough else 8)]:
         inputs += bytegen.byte_mutations(rng, b, 120 if chk.thorough else 40)
-    inputs += bytegen.random_bytes(rng, 4000 if chk.thorough else 400)
+    inputs += bytegen.random_bytes(rng, 30000 if chk.thorough else 400)
     lines = ["lex " + hx(b) for b in inputs]
     impl, rc, err = run_lines(harness(), lines)
     model, rc2, err2 = driver(lines)
